@@ -600,7 +600,7 @@ class Interp:
         if isinstance(container, Obj):
             m = self.find_member(container.cls, "__contains__")
             if m is None:
-                raise Unsupported(f"`in` on {container}")
+                return self.ctx.dep_call(self, container, "__contains__", [x], {})
             return self.call(BoundMethod(m, container), [x], {})
         if isinstance(container, DictView):
             return x in container.o.fields
@@ -939,6 +939,9 @@ class Interp:
         model = self.ctx.external(f)
         if model is not None:
             return model(self, *args, **kw)
+        ov = self.ctx.native_override(self, f, args, kw)
+        if ov is not NotImplemented:
+            return ov
         slf = getattr(f, "__self__", None)
         if isinstance(slf, logging.Logger) or f in (print,) or getattr(f, "__module__", None) == "warnings":
             return None
